@@ -61,6 +61,12 @@ def search(prop, seed, tier, repo, budget_ms=None):
         try:
             js = json.loads(r.stdout.strip().split('\n')[-1])
         except Exception:
+            if r.returncode < 0 or r.returncode in (134, 139):
+                # the process that runs the REAL crate was killed by a signal (abort / segfault: a stack overflow in a recursive build, an out-of-bounds
+                # access in unsafe code): that is a violation of "never panics / the build is total" in itself; the case is re-run by seed
+                summary['runs'].append(dict(family=f, found=True, died_with=r.returncode, stderr=r.stderr[-300:]))
+                return summary, dict(family=f, case=dict(rerun=[f, str(seed or 1), str(budget)]),
+                                     disagreement='the process running the real crate was killed (exit status %d) while family %s ran with seed %s: %s' % (r.returncode, f, seed or 1, r.stderr.strip()[-200:]))
             summary['runs'].append(dict(family=f, error=(r.stdout + r.stderr)[-500:]))
             continue
         summary['runs'].append(dict(family=f, tried=js.get('tried'), distinct=js.get('distinct'), found=js.get('found')))
@@ -72,6 +78,11 @@ def search(prop, seed, tier, repo, budget_ms=None):
 def replay(prop, failing, repo):
     """True if the case passes now"""
     exe = build(repo)
+    if isinstance(failing.get('case'), dict) and 'rerun' in failing['case']:
+        r = subprocess.run([exe] + failing['case']['rerun'], stdout=subprocess.PIPE, stderr=subprocess.PIPE, text=True)
+        died = r.returncode < 0 or r.returncode in (134, 139)
+        print('re-run of the family with the same seed: exit status %d' % r.returncode)
+        return not died
     r = subprocess.run([exe, 'replay', json.dumps(failing['case'])], stdout=subprocess.PIPE, stderr=subprocess.PIPE, text=True)
     print(r.stdout.strip())
     return r.returncode == 0
